@@ -193,6 +193,14 @@ Shared3 ==
                                                 Sh(<<"y">>, "query", "ok"), Sh(<<"z">>, "sudo", "ok"),
                                                 Sh(<<"a", "a", "1">>, "migrate", "ok") >>] >>]
 
+(* a program whose interfaces live in nested modules with the same last path segment (`i1::iface`, `i2::iface`):
+   nothing may identify an interface by the last segment of its module path (C16, C03) *)
+Nested1 ==
+    [id |-> "N1", family |-> "nested", overrides |-> {},
+     parts |-> << [id |-> "i1", methods |-> << Sh(NameFoo, "exec", "ok"), Sh(NameBar, "query", "ok") >>],
+                  [id |-> "i2", methods |-> << Sh(<<"x">>, "exec", "err"), Sh(<<"y">>, "query", "ok"), Sh(<<"z">>, "sudo", "ok") >>],
+                  [id |-> "own", methods |-> << Sh(NameInstantiate, "instantiate", "ok"), Sh(<<"a">>, "exec", "ok"), Sh(<<"b">>, "query", "ok") >>] >>]
+
 (* programs that override entry points (C06, C04): one handler of every kind, some kinds served by the user's own functions *)
 OvProg(id, ov) ==
     [id |-> id, family |-> "override", overrides |-> ov,
@@ -239,12 +247,12 @@ PermTwin(p) ==
 RawSeq ==      \* all programs of this instance, as a sequence
        [gi \in 1..Len(Groups) |-> CorpusProg(gi)]
     \o [i \in 1..Len(SmallFs) |-> SmallProgOf(SmallFs[i], "m" \o ToString(i))]
-    \o <<Shared1, Shared2, Shared3, Wide1, Defaults1, Keywords1, Generic1, Generic2, PermTwin(Shared1), PermTwin(CorpusProg(1))>> \o OverrideProgs \o CollideProgs
+    \o <<Shared1, Shared2, Shared3, Nested1, Wide1, Defaults1, Keywords1, Generic1, Generic2, PermTwin(Shared1), PermTwin(CorpusProg(1))>> \o OverrideProgs \o CollideProgs
 
 (* the table of elaborated programs: the static semantics applied once per program *)
 ElabSeq == TLCEval([i \in 1..Len(RawSeq) |-> Elab(RawSeq[i])])
 ProgTable == ElabSeq          \* program "ids" of the model are indices into this sequence
-CompiledIds == {i \in 1..Len(RawSeq) : RawSeq[i].family \in {"corpus", "shared", "perm", "override", "collide", "generic"}}
+CompiledIds == {i \in 1..Len(RawSeq) : RawSeq[i].family \in {"corpus", "shared", "perm", "override", "collide", "generic", "nested"}}
 
 (* ------------------------------------------------------------ documents *)
 (* long documents (a body of ~1.2 kB of four-byte characters after 0..3 one-byte characters: whatever byte offset a *)
